@@ -838,7 +838,22 @@ func (m *MonC18) AfterBlock(w *World, b *BlockCtx) {
 			if now == nil {
 				now = new(big.Int)
 			}
-			// the same key may also receive this block's 95% remainders
+			// "loses the rounded-up 5%": every item keeps exactly floor(95%). Only the keys of this block's own
+			// due heights may also receive new value (the 95% remainders, unbonds and moves of this block).
+			if fh != h+m.unbondP && fh != h+types.GetMovePeriod() {
+				exact := new(big.Int)
+				for i := range b.Prev.Raw.FrozenFunds {
+					f := &b.Prev.Raw.FrozenFunds[i]
+					if v := bi(f.Value); v != nil && frozenKey(f) == k {
+						exact.Add(exact, new(big.Int).Div(new(big.Int).Mul(v, big.NewInt(95)), big.NewInt(100)))
+					}
+				}
+				if now.Cmp(exact) != 0 {
+					w.Report("C18", "punishment", "frozen-slash-amount", fmt.Sprintf("height %d: unbonding fund %s of punished candidate: %s before, every item keeps floor(95%%) = %s in all (the rounded-up 5%% is lost), export shows %s", b.Height, k, old, exact, now), b.Height)
+					return
+				}
+				w.Probe("c18_frozen_cut_exact")
+			}
 			if now.Cmp(exp) < 0 {
 				w.Report("C18", "punishment", "frozen-slash-amount", fmt.Sprintf("height %d: unbonding fund %s of punished candidate: %s before, expected at least %s after the 5%% cut, export shows %s", b.Height, k, old, exp, now), b.Height)
 				return
